@@ -2,9 +2,9 @@
 From Coq Require Import Permutation Sorted.
 From HTA.lib Require Import Base Cells Intervals Sweep.
 From HTA.model Require Import C04_Model C07_Model C05_Model.
-From HTA.gen Require Import KernelRules_gen.
+From HTA.gen Require Import KernelRules_gen KernelBreakdownRules_gen.
 From HTA.proof Require Import KernelRulesTie C04_Proofs C05_Proofs.
-From HTA.proof Require Import Scale C05_Scale.
+From HTA.proof Require Import Scale C05_Scale C05_RulesTie.
 Open Scope list_scope.
 Open Scope Z_scope.
 
@@ -89,3 +89,17 @@ Theorem C05_types_resolution_independent : forall k mem l, 0 < k ->
   model_types mem (scale_evs k l) = map (Z.mul k) (model_types mem l).
 Proof. exact C05_types_scale. Qed.
 Print Assumptions C05_types_resolution_independent.
+
+(* the tie by regeneration, second part: the bit of each kernel type in the sweep, the condition under which kernels are aggregated at all
+   and the rule that moves a row to 'others' are those READ from _get_gpu_kernel_type_time / _aggr_gpu_kernel_time, whose statement
+   sequence the translator accepts in exactly one shape *)
+Theorem C05_rules_follow_source : forall q16 numk i c t0 t1 t2 l,
+  is_other q16 numk i c = is_other_gen q16 numk i c /\
+  type_rows 1 [t0; t1; t2] l =
+    rows_of (type_bit_gen 0) (merge_sorted (sort_ts (type_itvs t0 l))) ++
+    rows_of (type_bit_gen 1) (merge_sorted (sort_ts (type_itvs t1 l))) ++
+    rows_of (type_bit_gen 2) (merge_sorted (sort_ts (type_itvs t2 l))) /\
+  (forall numk' k16 ks, aggregates_gen (Z.of_nat (List.length (sort_g (group_by_name ks)))) numk' = false ->
+     aggr numk' k16 ks = (sort_g (group_by_name ks), None)).
+Proof. exact kernel_breakdown_rules_are_generated. Qed.
+Print Assumptions C05_rules_follow_source.
